@@ -57,8 +57,12 @@ Dev_C07_InheritedByEveryPeptide(ev) ==
            extra == SemMass(SemAdd(SemSum(A.labile), SemSum(A.unknown)), TRUE)
            total == FSum([ q \in 1..Len(ev.items) |-> ev.items[q].mass ])
            water == CompMass(ApplyLabels(Water, Labels(A)), TRUE)
-           want == FAdd(FAdd(ev.protMass, FMulInt(water, Len(ev.items) - 1)), FMulInt(extra, Len(ev.items) - 1)) IN
-       FWithin(total, want, Micro(1 + Len(ev.items)))
+           want == FAdd(FAdd(ev.protMass, FMulInt(water, Len(ev.items) - 1)), FMulInt(extra, Len(ev.items) - 1))
+           (* `extra` is weighed with the specification's atomic masses, the library weighs named entries and glycans   *)
+           (* with its tabulated masses (6 decimals): up to 5e-7 Da per tabulated unit and copy                          *)
+           inh == A.labile \o A.unknown
+           units == FoldLeft(LAMBDA acc, m : acc + m.m * (1 + Sem(m.v).sugars), 0, inh) IN
+       FWithin(total, want, FAdd(Micro(1 + Len(ev.items)), FMulInt(Nano(500), units * (Len(ev.items) - 1))))
 Dev(ev) == IF "C07_InheritedByEveryPeptide" \in Devs /\ Dev_C07_InheritedByEveryPeptide(ev) THEN "C07_InheritedByEveryPeptide" ELSE ""
 Init == l = 1 /\ ResetCounters
 Next == /\ l <= NEvents
